@@ -25,7 +25,7 @@ var Shapes = []Shape{
 	{"coalesce", []string{`a*a`, `a+a*`, `aa*?`, `a*?a*?`, `[ab][ab]*`, `a{2,3}a{1,2}`, `(?>a*)a+`, `a+ab`, `.*.`, `aa+`, `a*a*`, `a?a?`, `a{2}a{2}`, `[ab]*[ab]`, `a+?a`}},
 	{"opcodes", []string{`(?:ab){2,3}`, `(?:ab){2,}?`, `(?:a|ab){1,2}?c`, `(a)?(?(1)b|c)`, `(?(?=a)ab|cd)`, `(a|b)\1`, `(?<n>a)\k<n>`, `(a)|\1b`, `(?<=(a)b)c`,
 		`(a+)\1`, `(?:a(b))*`, `((a)|(b))*c`, `(a)(?!b)`, `(?<!a)b`, `(?<=a)b`, `(?<=ab)c`, `(?<!ab)c`, `(?=(a))ab`, `(?!a)\w`, `(a)*`, `(a|b)+`, `(?:(a)|b)*`,
-		`(?:ab)+`, `(?:ab)+?c`, `(?:a|b)*?c`, `(ab){2}`, `(?:ab){0,2}c`, `(a)(b)?\2`, `(?(1)a|b)`, `(a)?(?(1)a|b)c`}},
+		`(?:ab)+`, `(?:ab)+?c`, `(?:a|b)*?c`, `(ab){2}`, `(?:ab){0,2}c`, `(a)(b)?\2`, `(a)?(?(1)a|b)c`}},
 	{"stackdeep", []string{`a*b*c*d*`, `a+b+c+d+`, `x(?<=a*b*c*x)`, `[ab]*[bc]*[cd]*`, `a*?b*?c*?d`, `(?<=a+b+)c`, `\w*\d*a*b*`}},
 	{"stacklimit", []string{`(?:a|b|c|d)*e`, `((a)|(b))*c`, `(?:a?){3}a{3}`, `(a*)*b`, `(a|b)*c`, `(?:a*a*)*b`}},
 	{"zerowidth", []string{`a*`, `\b`, `(?=a)`, `\G`, `\Ga*`, `(?<=a)`, `^|$`, `a*?`, `(?:)`, `$`, `a?`, `(?m)^`, `(?m)$`, `\B`, `b*|a`, `(a)?`, `\Ga`, `(?<=\Ga)`, `a|`, `(?!a)`, `\b|a`}},
